@@ -1,6 +1,7 @@
 import QuantemModel.Core.Proto
 import QuantemModel.Model.Config
 import QuantemModel.Model.ConfigHistory
+import QuantemModel.Model.ConfigCollect
 open Lean QuantemModel QuantemModel.Proto QuantemModel.Config
 
 namespace DrvC19
@@ -56,6 +57,41 @@ def errName : Err → String
 structure St where
   env : Env := { cuda := false, mps := false, numDevices := 0 }
   s : State := { config := [], defaults := [] }
+  /-- undo records of the `with set(...)` blocks entered and not yet left -/
+  stack : List (List RecOp) := []
+
+def contentOfJson (j : Json) : Except String FileContent := do
+  match j with
+  | .str "empty" => pure .empty
+  | .str "malformed" => pure .malformed
+  | .str "nondict" => pure .nonDict
+  | .str "unreadable" => pure .unreadable
+  | other =>
+      match ← treeOfJson (← other.getObjVal? "dict") with
+      | .node kvs => pure (.dict kvs)
+      | _ => throw "file content: expected dict"
+
+def pathKindOfJson (j : Json) : Except String PathKind := do
+  match ← (← j.getObjVal? "kind").getStr? with
+  | "missing" => pure .missing
+  | "file" => pure (.file (← contentOfJson (← j.getObjVal? "content")))
+  | "dir" =>
+      let es ← (← (← j.getObjVal? "entries").getArr?).toList.mapM fun it => do
+        let pr ← it.getArr?
+        if pr.size != 2 then throw "entry" else
+        pure ({ name := ← pr[0]!.getStr?, content := ← contentOfJson pr[1]! } : CfgFile)
+      pure (.dir es)
+  | k => throw s!"path kind {k}"
+
+def prioOfString : String → Except String Priority
+  | "old" => pure .old | "new" => pure .new | "new-defaults" => pure .newDefaults
+  | p => throw s!"priority {p}"
+
+def errOpt : Option Err → Json
+  | .none => okJson Json.null
+  | some e => errJson (match e with
+      | .typeError => "TypeError" | .keyError => "KeyError"
+      | .valueError => "ValueError" | .runtimeError => "RuntimeError" | .attributeError => "AttributeError")
 
 def itemsOfJson (j : Json) : Except String (List (Key × Tree)) := do
   let items ← j.getArr?
@@ -83,10 +119,11 @@ def step (st : St) (j : Json) : St × Json :=
         let e := fieldD j "env" (Json.mkObj [])
         let env : Env := { cuda := (boolField e "cuda").toOption.getD false,
                            mps := (boolField e "mps").toOption.getD false,
-                           numDevices := (natField e "n").toOption.getD 0 }
+                           numDevices := (natField e "n").toOption.getD 0,
+                           currentDevice := (natField e "cur").toOption.getD 0 }
         let cfg ← dictOfJson (← field j "config")
         let ds ← (← arrField j "defaults").toList.mapM dictOfJson
-        pure (reply { env := env, s := { config := cfg, defaults := ds } } (okJson Json.null))
+        pure (reply { env := env, s := { config := cfg, defaults := ds }, stack := [] } (okJson Json.null))
     | "set" =>
         -- state transition and raised exception are those of the history model (`hstep`)
         let op := HOp.set (← allItems j)
@@ -106,12 +143,17 @@ def step (st : St) (j : Json) : St × Json :=
             pure (reply st' (okJson (Json.mkObj [("inside", treeToJson (.node inside))])))
     | "get" =>
         let key ← strField j "key"
-        let r := get st.s.config (splitDots key.toList)
-        let out := match r with
-          | .ok t => okJson (treeToJson t)
-          | .error e => match j.getObjVal? "default" with
-              | .ok d => okJson (Json.mkObj [("default", d)])
-              | .error _ => errJson (errName e)
+        -- "override" is the `override_with` argument (absent = None); "default" absent = no_default
+        let ov ← match j.getObjVal? "override" with
+          | .ok o => treeOfJson o
+          | .error _ => pure (.leaf .none)
+        let dflt ← match j.getObjVal? "default" with
+          | .ok d => (treeOfJson d).map some
+          | .error _ => pure .none
+        let found := (get st.s.config (splitDots key.toList)).toOption.isSome
+        let out := match getFull st.s.config (splitDots key.toList) dflt ov with
+          | .ok t => okJson (Json.mkObj [("v", treeToJson t), ("found", Json.bool found)])
+          | .error e => errJson (errName e)
         pure (reply st out)
     | "update_defaults" =>
         let op := HOp.updateDefaults (← dictOfJson (← field j "new"))
@@ -122,8 +164,39 @@ def step (st : St) (j : Json) : St × Json :=
         pure (reply { st with s := hstep st.env st.s HOp.refresh } (match e with | .none => okJson Json.null | some e => errJson (errName e)))
     | "validate_device" =>
         let v ← treeOfJson (← field j "v")
-        pure (reply st (match validateDevice st.env v with
-          | .ok a => okJson (treeToJson (.leaf a)) | .error e => errJson (errName e)))
+        pure (reply st (match validateDeviceFull st.env v with
+          | .ok (a, i) => okJson (Json.arr #[treeToJson (.leaf a), Json.num (JsonNumber.fromInt i)])
+          | .error e => errJson (errName e)))
+    | "update" =>
+        -- the public `update(old, new, priority, defaults)` on dictionaries of the caller
+        let old ← dictOfJson (← field j "old")
+        let new ← dictOfJson (← field j "new")
+        let prio ← prioOfString (← strField j "priority")
+        let defs ← match j.getObjVal? "defaults" with
+          | .ok Json.null => pure .none
+          | .ok d => (treeOfJson d).map some
+          | .error _ => pure .none
+        let r := updateP st.env prio false old defs new
+        pure (reply st (Json.mkObj [("out", treeToJson (.node r.1)), ("res", errOpt r.2)]))
+    | "merge" =>
+        let ds ← (← arrField j "dicts").toList.mapM dictOfJson
+        pure (reply st (match merge st.env ds with
+          | .ok d => okJson (treeToJson (.node d)) | .error e => errJson (errName e)))
+    | "refresh_path" =>
+        let pk ← pathKindOfJson (← field j "path")
+        let r := refreshFromP st.env st.s pk
+        pure (reply { st with s := r.1 } (errOpt r.2))
+    | "set_scratch" =>
+        -- `set(arg, config=scratch, **kwargs)`: another dictionary than the module's
+        let scratch ← dictOfJson (← field j "scratch")
+        let r := setItems st.env scratch [] (← allItems j)
+        pure (reply st (Json.mkObj [("out", treeToJson (.node r.1)), ("res", errOpt r.2.2)]))
+    | "enter" =>
+        let r := xenter st.env { s := st.s, stack := st.stack } (← allItems j)
+        pure (reply { st with s := r.1.s, stack := r.1.stack } (errOpt r.2))
+    | "exit" =>
+        let x := xexit { s := st.s, stack := st.stack }
+        pure (reply { st with s := x.s, stack := x.stack } (okJson Json.null))
     | _ => throw s!"unknown op {op}" : Except String (St × Json)) with
   | .ok r => r
   | .error e => (st, errJson s!"driver:{e}")
